@@ -64,23 +64,30 @@ theorem invS_write_bump {e e' : Enc} {f : Bool} (h : InvS e f) (t : Tok) (ws : B
       simp only [h0, if_true]
       exact ⟨hsep, fun _ => ⟨rfl, hA⟩, fun hf => by simp at hf⟩
     · simp only [h0, if_false]
-      refine ⟨MemberSep.comma _, fun hf => ?_, fun _ => ⟨rfl, ?_⟩⟩
+      refine ⟨MemberSep.comma _, fun hf => ?_, fun _ => ⟨rfl, ?_, ?_⟩⟩
       · simp at hf; exact absurd hf h0
       · simpa [Enc.total] using h.noOpen (Nat.pos_of_ne_zero h0)
+      · simpa using h.stale hn (Nat.pos_of_ne_zero h0)
   · -- a member value was written
-    intro _ hn _ hne
+    intro hn hl'
     obtain ⟨ho, hk⟩ := needName_isObj hn
     rw [hobj] at ho
+    rw [hlen] at hk hl'
     have hv : e.last.needValue = true := by simp [Frame.needValue, ho]; omega
     obtain ⟨pre, sep, ws1, name, hbuf, h1, hq, hhead⟩ := h.named hv
-    have hrev : e'.total.reverse = t.text.reverse ++ (ws.reverse ++ 0x3a :: (e.buf.reverse ++ e.delivered.reverse)) := by
-      simp [Enc.total, hb, hd, delim_of_needValue hv, List.reverse_append]
-    rw [hrev] at hne
-    have hv' := emptyText_of_value t.text ws _ hws htxt hne
     rw [hd, hlen, hst]
-    refine ⟨pre, sep, ws1, name, ws, t.text, ?_, h1, hws, hq, hv', ?_⟩
-    · rw [hb, delim_of_needValue hv, hbuf]
-    · rw [beq_succ_two]; exact hhead
+    by_cases hne : emptyLenR e'.total.reverse = 0
+    · exact compat_of_zero _ (by simpa [Enc.total, hd] using hne)
+    · have hrev : e'.total.reverse = t.text.reverse ++ (ws.reverse ++ 0x3a :: (e.buf.reverse ++ e.delivered.reverse)) := by
+        simp [Enc.total, hb, hd, delim_of_needValue hv, List.reverse_append]
+      rw [hrev] at hne
+      have hv' := emptyText_of_value t.text ws _ hws htxt hne
+      have hcs : CShape e.delivered (e.last.len + 1) e.stack e'.buf := by
+        refine ⟨pre, sep, ws1, name, ws, t.text, ?_, h1, hws, hq, hv', ?_⟩
+        · rw [hb, delim_of_needValue hv, hbuf]
+        · have hq2 : e.last.len + 1 - 2 = e.last.len - 1 := by omega
+          rw [beq_succ_two, hq2]; exact hhead
+      exact compat_of_cshape hcs hl' hk
   · intro _
     obtain ⟨p, c, hpc, hc1, hc2⟩ := saneText_last htxt
     have : e'.total = (e.delivered ++ e.buf ++ delim e.last e.stack t ++ ws ++ p) ++ [c] := by
@@ -101,7 +108,7 @@ theorem invS_write_open {e e' : Enc} {f : Bool} (h : InvS e f) (t : Tok) (ws : B
     have : ¬ (e.last.len % 2 = 0) := by
       intro hk; simp [Frame.needName, hobj, hk] at hacc
     simp [Frame.needValue, hobj]; omega
-  refine ⟨hbot, ?_, ?_, ?_, (by intro hf; cases hf), ?_⟩
+  refine ⟨hbot, ?_, ?_, ?_, (by intro _ hlen; rw [hl] at hlen; simp at hlen), ?_⟩
   · intro g hg
     rw [hst] at hg
     cases List.mem_cons.mp hg with
@@ -121,7 +128,10 @@ theorem invS_write_open {e e' : Enc} {f : Bool} (h : InvS e f) (t : Tok) (ws : B
     refine ⟨pre, sep, ws1, name, ws, ?_, h1, hws, hq, ?_⟩
     · rw [delim_of_needValue hv, hbuf]
     · have : ((e.last.inc).len == 2) = (e.last.len == 1) := beq_succ_two _
-      rw [this]; exact hhead
+      have hq2 : (e.last.inc).len - 2 = e.last.len - 1 := by
+        show e.last.len + 1 - 2 = e.last.len - 1
+        omega
+      rw [this, hq2]; exact hhead
   · intro hv; rw [hl] at hv; simp [Frame.needValue] at hv
   · intro hlen; rw [hl] at hlen; simp at hlen
 
@@ -144,26 +154,31 @@ theorem invS_write_close {e e' : Enc} {f : Bool} (h : InvS e f) (t : Tok) (ws : 
   · intro hv; rw [hl] at hv
     obtain ⟨hobj, hk⟩ := needValue_isObj hv
     have := hp.2 hobj; omega
-  · intro _ hn _ hne
-    rw [hl] at hn
-    by_cases h0 : e.last.len = 0
-    · have hA := h.opened h0
-      rw [hstack] at hA
-      obtain ⟨b, o, hbo, _, hshape⟩ := hA
-      have hrev : e'.total.reverse = c :: (ws.reverse ++ o :: (b.reverse ++ e.delivered.reverse)) := by
-        simp [Enc.total, hbuf, hd, hbo, List.reverse_append]
-      rw [hrev] at hne
-      obtain ⟨hws0, hv⟩ := emptyText_of_close c o ws _ hws hc hne
-      obtain ⟨pre, sep, ws1, name, ws2, hbshape, h1, h2, hq, hhead⟩ := hshape (needName_isObj hn).1
-      rw [hd, hl, hst]
-      refine ⟨pre, sep, ws1, name, ws2, [o, c], ?_, h1, h2, hq, hv, hhead⟩
-      rw [hbuf, hbo, hbshape, hws0]; simp [List.append_assoc]
-    · exfalso
-      have hT := h.noOpen (Nat.pos_of_ne_zero h0)
-      have hrev : e'.total.reverse = c :: (ws.reverse ++ e.total.reverse) := by
-        simp [Enc.total, hbuf, hd, List.reverse_append]
-      rw [hrev] at hne
-      exact hne (emptyLen_close_nonempty c ws e.total hws hc hT)
+  · intro hn hl'
+    rw [hl] at hn hl'
+    have hk := (needName_isObj hn).2
+    rw [hd, hl, hst]
+    by_cases hne : emptyLenR e'.total.reverse = 0
+    · exact compat_of_zero _ (by simpa [Enc.total, hd] using hne)
+    · by_cases h0 : e.last.len = 0
+      · have hA := h.opened h0
+        rw [hstack] at hA
+        obtain ⟨b, o, hbo, _, hshape⟩ := hA
+        have hrev : e'.total.reverse = c :: (ws.reverse ++ o :: (b.reverse ++ e.delivered.reverse)) := by
+          simp [Enc.total, hbuf, hd, hbo, List.reverse_append]
+        rw [hrev] at hne
+        obtain ⟨hws0, hv⟩ := emptyText_of_close c o ws _ hws hc hne
+        obtain ⟨pre, sep, ws1, name, ws2, hbshape, h1, h2, hq, hhead⟩ := hshape (needName_isObj hn).1
+        have hcs : CShape e.delivered p.len rest e'.buf := by
+          refine ⟨pre, sep, ws1, name, ws2, [o, c], ?_, h1, h2, hq, hv, hhead⟩
+          rw [hbuf, hbo, hbshape, hws0]; simp [List.append_assoc]
+        exact compat_of_cshape hcs hl' hk
+      · exfalso
+        have hT := h.noOpen (Nat.pos_of_ne_zero h0)
+        have hrev : e'.total.reverse = c :: (ws.reverse ++ e.total.reverse) := by
+          simp [Enc.total, hbuf, hd, List.reverse_append]
+        rw [hrev] at hne
+        exact hne (emptyLen_close_nonempty c ws e.total hws hc hT)
   · intro _
     have : e'.total = (e.delivered ++ e.buf ++ ws) ++ [c] := by
       simp [Enc.total, hbuf, hd, List.append_assoc]
